@@ -862,6 +862,11 @@ class W1Monitor:
 
 
 def parse_life(line):
+    refuses = None
+    mr = re.search(r" refuses=(\d)", line)
+    if mr:
+        refuses = mr.group(1) == "1"
+        line = line.replace(mr.group(0), "", 1)
     m = re.match(r"last=(\S+) state=(\d) inst=(\d+) gstop=(\S+) stop=(\S+) serves=\[(.*?)\] holds=\[(.*?)\] all=\[(.*?)\]$", line)
     if not m:
         return None
@@ -876,7 +881,7 @@ def parse_life(line):
         res, _, hctx = rest2.rpartition(":")
         holds[int(hid)] = {"tid": int(tid), "kind": kind, "res": res, "hctx": hctx}
     allr = [int(x) for x in m.group(8).split(",") if x]
-    return {"last": m.group(1), "state": int(m.group(2)), "inst": int(m.group(3)), "gstop": m.group(4),
+    return {"refuses": refuses, "last": m.group(1), "state": int(m.group(2)), "inst": int(m.group(3)), "gstop": m.group(4),
             "stop": m.group(5), "serves": serves, "holds": holds, "all": allr}
 
 
@@ -906,6 +911,10 @@ class LifecycleMonitor:
         self.step += 1
         k = kvs(op)
         name = op.split()[0]
+        # C10: from the moment shutdown was initiated (GracefulStop or Stop) new RPCs on existing tunnels are refused - for good
+        if o["refuses"] is not None and o["state"] != 0 and not o["refuses"]:
+            v.append(("C10", "shutdown-does-not-refuse-new-rpcs", f"the server is {['active', 'closing', 'closed'][o['state']]} but tells its tunnels "
+                                                                  f"NOT to refuse new RPCs (isClosing() = false) after `{op}`"))
         shutting = self.gstop_at is not None or self.stop_issued
         if name == "l.hold":
             hid = int(k["h"])
